@@ -1023,6 +1023,9 @@ def _generate_structure_virtual_field_methods(enclosing_type_name, field_ir, ir)
         and field_exists.is_constant
         # The constant-field templates hard-code has_x() == true.
         and ir_util.constant_value(field_ir.existence_condition)
+        # They also hard-code Ok() == true, so a [requires] on the field needs
+        # the ordinary templates, which evaluate it.
+        and not ir_util.get_attribute(field_ir.attribute, "requires")
     ):
         assert not read_subexpressions.subexprs()
         declaration_template = (
